@@ -17,7 +17,7 @@
    S3 uncaught_failure_stree: evals p = Err e -> value() ends with Err e.
    S4 stree_resume_guarded / stree_no_step_after_done (one computation from st0) and
       stree_history_no_step_after_done (a whole history of stree computations, each but the last finishing).
-   S5 synchronous calls, three state properties:
+   S5 synchronous calls.  State properties:
       - sync_call_stree: at the call proper, mode [MRun t (Sync h k)]: h is a task younger than t with a specified
         outcome oh, spec t = evals (k oh), and if the entry of h is still the fresh task of program q then
         oh = evals q;
@@ -25,11 +25,17 @@
         from [MValue h] over that frame (h already computed) or from the wait loop of [FWait h] directly above
         that frame, h computed, and o is the outcome stored in h - which is the specified one;
       - sync_return_stree: when [MDeliver o] pops [FValue t k], t is an uncomputed task, the caller continues
-        as [MRun t (k o)] and spec t = evals (k o): the caller's sequential outcome is that of its continuation
-        on the delivered outcome.
-      NOT proved as ONE statement: that the h of the second property is the very handle created by the call of
-      the first (the FValue frame does not record it; by [step] the frame FValue t k is pushed only by
-      MRun t (Sync h k) -> MValue h, and MValue h pushes FWait h, so it is - but this is a two-state property). *)
+        as [MRun t (k o)] and spec t = evals (k o).
+      The two-state theorem (sync_call_returns_evals_stree, sync_call_expr_returns_evals_stree): if the run is at
+      the call proper [MRun t (Sync h k)] (h the fresh task of q) at step n, resp. at the call expression
+      [MRun t (Let (FTask q) (fun h => Sync h k))], and m is the FIRST later step at which value() returns into
+      the frames pushed by this call ([MDeliver o] over FValue t k :: the caller's frames at n), then o = evals q and
+      the caller continues as MRun t (k (evals q)) with spec t = evals (k (evals q)).  Ingredients: the ghost map
+      only grows along a run (s01_step_le: MachineC01S.s01_MRun re-proved with that conjunct), and the relation
+      [pending h F]: value() of h has just been entered over F or FWait h sits directly on F; one transition keeps
+      the call pending or returns into F with the stored = specified outcome of h (pending_step).
+      NOT proved: that the call does return (termination); "first return" is a hypothesis on the run (a later
+      call of the same caller with an equal continuation from the same frames would also match the pattern). *)
 From Asynq Require Import Machine Seq proofs.ProgProofs proofs.MachineFrame proofs.MachineC05 proofs.MachineC08
   proofs.MachineC01 proofs.MachineC01S proofs.MachineSteps proofs.MachineC06T.
 
@@ -421,4 +427,328 @@ Proof.
   split; [intros _; eexists; vm_compute; reflexivity|].
   split; [exact c02s_demo_stree|]. split; [apply MachineC06T.no_unwind_b_sound; vm_compute; reflexivity|].
   split; [intros H; exfalso; apply H; reflexivity|exact I].
+Qed.
+
+(* ------------------------------------------------------------------ the specification only grows *)
+(* s01_step with the additional information that the ghost specification map is extended, never changed
+   (MachineC01S.s01_MRun re-proved with the extra conjunct; the other modes keep the map) *)
+Section MonoS.
+  Variable P : params.
+  Hypothesis HP : pointwise P.
+  Variable res : outcome.
+
+  Lemma s01_MRun_le spec t p fr s : CI res spec (mkC (MRun t p) fr s) ->
+    exists spec', CI res spec' (step P (mkC (MRun t p) fr s)) /\ spec_le spec spec'.
+  Proof.
+    intros (Hf & HS & Hm). cbn [c_mode c_frames c_st] in *.
+    destruct Hf as (old & i & r & vs & -> & Hrt & Hlv). cbn [R_of fvals] in HS.
+    assert (HtR : ~ In t (fvals vs)).
+    { intros Hin. pose proof (wt_ok_fvals _ _ _ _ _ (proj2 Hlv) t Hin). lia. }
+    destruct (SI_utask _ _ _ t HS (or_introl eq_refl)) as (tk & Hg).
+    assert (Hfr : forall spec' ts, spec_le spec spec' -> ts = tasks s ->
+              frames_okS res spec' ts MContRet (FCont t old :: FExec i :: FWait r :: vs)).
+    { intros spec' ts L ->. exists t, old, i, r, vs. split; [reflexivity|]. split; [exact Hrt|]. apply (lv_ok_le res spec); assumption. }
+    assert (Hfr' : forall spec' ts q, spec_le spec spec' -> ts = tasks s ->
+              frames_okS res spec' ts (MRun t q) (FCont t old :: FExec i :: FWait r :: vs)).
+    { intros spec' ts q L ->. exists old, i, r, vs. split; [reflexivity|]. split; [exact Hrt|]. apply (lv_ok_le res spec); assumption. }
+    assert (Lrefl : spec_le spec spec) by (intros x o H; exact H).
+    assert (Hp : forallb plain_ctx (tk_ctxs tk) = true) by (apply (SI_plain _ _ _ _ _ _ HS Hg)).
+    pose proof (SI_deps _ _ _ _ _ _ HS Hg) as Hdeps.
+    cbn [step c_mode c_frames c_st].
+    destruct Hm as [(Htree & Hst)|(h & k & oh & -> & Hk & Hsh & Hst & Hth & Hih)].
+    2:{ (* the synchronous call proper: value() of the callee is entered below the caller's frames *)
+      exists spec. split; [|exact Lrefl]. apply CI_intro; [|exact HS|exact Hih|exact I].
+      exists oh. split; [exact Hsh|]. destruct Hlv as (Hh & orr & Hr & Hv).
+      apply (vs_val res spec (tasks s) oh (fnum h) t k old i r orr vs); auto. }
+    unfold get_task. rewrite Hg.
+    inversion Htree as [v Ev|v Ev|e Ev|y k Hl Hk Ev|c k Hc Hk Ev|c k Hc Hk Ev|q k Hq Hk Ev]; subst p.
+    - (* Ret *)
+      exists spec. split; [|exact Lrefl]. destruct (finish_taskS res spec t s tk (Ok v) _ (fvals vs) HS HtR Hg Hst (Hfr spec _ Lrefl eq_refl) eq_refl) as (Hnc & HC).
+      cbn zeta in *. rewrite Hnc. exact HC.
+    - (* Result *)
+      exists spec. split; [|exact Lrefl]. destruct (finish_taskS res spec t s tk (Ok v) _ (fvals vs) HS HtR Hg Hst (Hfr spec _ Lrefl eq_refl) eq_refl) as (Hnc & HC).
+      cbn zeta in *. rewrite Hnc. exact HC.
+    - (* Raise *)
+      exists spec. split; [|exact Lrefl]. destruct (finish_taskS res spec t s tk (Err e) _ (fvals vs) HS HtR Hg Hst (Hfr spec _ Lrefl eq_refl) eq_refl) as (Hnc & HC).
+      cbn zeta in *. unfold accept_error. rewrite Hnc. exact HC.
+    - (* Yield *)
+      destruct (SI_inst _ t y spec s HS Hl) as (spec' & (Ext & HS1 & Old & Tn) & U & A & Nw).
+      pose proof (ext_spec_le _ _ _ _ HS Ext) as L.
+      pose proof (tasks_of_regs _ _ (regs_inst t y s)) as Ets.
+      destruct (inst t y s) as [y' s1]. cbn [fst snd] in *.
+      assert (Hg1 : get t s1 = Some (mkFut None (KTask tk))) by (rewrite Old; [exact Hg|rewrite Hg; discriminate]).
+      rewrite Hg1.
+      set (deps := tk_deps tk ++ futs (extract y')).
+      set (tk2 := mkTask (Some k) y' deps (tk_ctxs tk) (tk_cact tk) (tk_ds tk) (tk_iter tk) (tk_next tk)).
+      pose proof (set_task_upd s1 t None tk tk2 Hg1) as U2.
+      assert (Hst' : spec' t = Some (evals (Yield y k))) by (apply L; exact Hst).
+      pose proof (SI_fnum_lt _ _ _ _ _ HS Hg) as Htn.
+      assert (HS2 : SI spec' (fun x => In x (fvals vs)) (set_task t tk2 s1)).
+      { apply (SI_upd spec' _ (fun x => In x (fvals vs)) s1 _ t _ _ Hg1 HS1 U2); [intros x N; apply in_cons_other'; exact N| | |intros; discriminate].
+        - intros Dom. destruct (SI_entry _ _ _ _ _ HS1 Hg1) as ((n & -> & Hn) & _). destruct U2 as (_ & _ & _ & D).
+          split; [exists n; rewrite D; auto|]. exists (evals (Yield y k)). split; [exact Hst'|]. split; [intros o2 E; discriminate|].
+          cbn. split; [exact Hp|]. split.
+          + intros d Hin. unfold deps in Hin. apply in_app_or in Hin as [Hin|Hin]; [apply Hdeps; exact Hin|].
+            unfold futs in Hin. apply in_flat_map in Hin as ([d'|] & Hin1 & Hin2); [|destruct Hin2].
+            destruct Hin2 as [<-|[]]. apply extract_same_elements in Hin1. specialize (Nw d' Hin1). cbn in Htn. lia.
+          + intros _ _. exists k. split; [reflexivity|]. split; [exact Hk|].
+            split; [cbn; rewrite U; reflexivity|]. split.
+            * intros h Hin. apply Dom. apply A. exact Hin.
+            * intros h Hin. unfold deps. apply in_or_app. right. apply futs_in. apply extract_same_elements. exact Hin.
+        - intros Hin. exfalso. exact (HtR Hin). }
+      exists spec'. split; [|exact L]. fold deps. fold tk2. destruct (futs (extract y')) as [|d ds] eqn:Ed.
+      + apply CI_intro; [| | |exact I].
+        * rewrite tasks_set_task, Ets. exists old, i, r, vs. split; [reflexivity|]. split; [exact Hrt|]. apply (lv_ok_le res spec); assumption.
+        * exact HS2.
+        * exists tk2. destruct U2 as (G2 & _). split; [exact G2|]. intros h Hin. cbn [tk_last tk2] in Hin.
+          exfalso. assert (Hin' : In h (futs (extract y'))) by (apply futs_in; apply extract_same_elements; exact Hin).
+          rewrite Ed in Hin'. destruct Hin'.
+      + apply CI_intro; [| |exact I|exact I].
+        * rewrite tasks_set_task, Ets. apply (Hfr spec' _ L eq_refl).
+        * exact HS2.
+    - (* Enter *)
+      exists spec. split; [|exact Lrefl]. unfold enter_ctx, get_task. rewrite Hg.
+      set (tk1 := tk_with_ctxs tk (tk_ctxs tk ++ [c]) (tk_cact tk)).
+      pose proof (set_task_upd s t None tk tk1 Hg) as U1.
+      assert (Hp1 : forallb plain_ctx (tk_ctxs tk1) = true) by (cbn; rewrite forallb_app, Hp; cbn; rewrite Hc; reflexivity).
+      pose proof (SI_upd_exempt spec _ s _ t tk tk1 Hg HS (or_introl eq_refl) U1 Hp1 Hdeps) as HS1.
+      assert (V : forall s2, heap s2 = heap (set_task t tk1 s) -> batches s2 = batches (set_task t tk1 s) ->
+                top_next s2 = top_next (set_task t tk1 s) -> tasks s2 = tasks s ->
+                CI res spec (mkC (MRun t k) (FCont t old :: FExec i :: FWait r :: vs) s2)).
+      { intros s2 E1 E2 E3 E4. apply CI_intro; [apply (Hfr' spec _ k Lrefl E4)|apply (SI_view _ _ (set_task t tk1 s)); auto| |exact I].
+        left. split; [exact Hk|exact Hst]. }
+      destruct c as [cid f|cid|cid var v]; apply V; try reflexivity; cbn; apply tasks_set_task.
+    - (* Exit *)
+      exists spec. split; [|exact Lrefl]. unfold exit_ctx, get_task. rewrite Hg.
+      set (tk1 := tk_with_ctxs tk (remove_ctx c (tk_ctxs tk)) (tk_cact tk)).
+      pose proof (set_task_upd s t None tk tk1 Hg) as U1.
+      assert (Hp1 : forallb plain_ctx (tk_ctxs tk1) = true) by (cbn; apply remove_ctx_plain; exact Hp).
+      pose proof (SI_upd_exempt spec _ s _ t tk tk1 Hg HS (or_introl eq_refl) U1 Hp1 Hdeps) as HS1.
+      assert (V : forall s2, heap s2 = heap (set_task t tk1 s) -> batches s2 = batches (set_task t tk1 s) ->
+                top_next s2 = top_next (set_task t tk1 s) -> tasks s2 = tasks s ->
+                CI res spec (mkC (MRun t k) (FCont t old :: FExec i :: FWait r :: vs) s2)).
+      { intros s2 E1 E2 E3 E4. apply CI_intro; [apply (Hfr' spec _ k Lrefl E4)|apply (SI_view _ _ (set_task t tk1 s)); auto| |exact I].
+        left. split; [exact Hk|exact Hst]. }
+      destruct (tk_cact tk); [|apply V; try reflexivity; apply tasks_set_task].
+      unfold pause_plain. destruct c as [cid f|cid|cid var v]; apply V; try reflexivity; cbn; apply tasks_set_task.
+    - (* a synchronous call: the callee task is created *)
+      pose proof (SI_create spec _ t (FTask q) s HS (sf_task q Hq)) as HC. cbn zeta in HC.
+      pose proof (tasks_of_regs _ _ (regs_create t (FTask q) s)) as Ets.
+      destruct (create t (FTask q) s) as [h s1]. cbn [fst snd fexpr_outs] in *.
+      destruct HC as (Hfresh & HS1 & Hnew & Hoth & Hh & Hn1 & Hent).
+      pose proof (spec_add_le spec _ s h (evals q) HS Hfresh) as L.
+      pose proof (SI_fnum_lt _ _ _ _ _ HS Hg) as Htn.
+      exists (spec_add spec h (evals q)). split; [|exact L]. apply CI_intro; [apply (Hfr' _ _ _ L Ets)|exact HS1| |exact I].
+      right. exists h, k, (evals q). split; [reflexivity|]. split; [exact Hk|].
+      split; [unfold spec_add; rewrite fid_eqb_refl; reflexivity|].
+      split; [apply L; rewrite Hst; rewrite evals_call; reflexivity|].
+      split; [rewrite Hh; cbn; cbn in Htn; lia|].
+      exists None, (fresh_task q). apply Hent. reflexivity.
+  Qed.
+
+  Theorem s01_step_le spec c :
+    is_unwind (c_mode c) = false -> CI res spec c -> exists spec', CI res spec' (step P c) /\ spec_le spec spec'.
+  Proof.
+    assert (Lrefl : spec_le spec spec) by (intros x o H; exact H).
+    destruct c as [m fr s]. destruct m; cbn [c_mode is_unwind]; intros Hu HI; try discriminate.
+    - exists spec. split; [apply (s01_MValue P); exact HI|exact Lrefl].
+    - exists spec. split; [apply (s01_MWaitHead P); exact HI|exact Lrefl].
+    - exists spec. split; [apply (s01_MAfterExec P HP); exact HI|exact Lrefl].
+    - exists spec. split; [apply (s01_MExecLoop P); exact HI|exact Lrefl].
+    - exists spec. split; [apply (s01_MResume P); exact HI|exact Lrefl].
+    - apply (s01_MRun_le spec); exact HI.
+    - exists spec. split; [apply (s01_MContRet P); exact HI|exact Lrefl].
+    - exists spec. split; [apply (s01_MDeliver P); exact HI|exact Lrefl].
+    - exists spec. split; [exact HI|exact Lrefl].
+    - exists spec. split; [exact HI|exact Lrefl].
+  Qed.
+
+  (* ---------------------------------------------------------------- a synchronous call, from entry to return *)
+  (* the call of [h] from the frames [F] (= FValue t k :: the caller's frames) has not returned yet: value() of h
+     has just been entered over F, or wait_for(h) sits directly on F under whatever the nested loop is doing *)
+  Definition pending (h : fid) (F : list frame) (c : cfg) : Prop :=
+    (c_mode c = MValue h /\ c_frames c = F) \/ exists pre, c_frames c = pre ++ FWait h :: F.
+
+  (* value() returns into F *)
+  Definition returns_to (F : list frame) (c : cfg) : Prop := c_frames c = F /\ exists o, c_mode c = MDeliver o.
+
+  Lemma pending_not_returns h F c : pending h F c -> ~ returns_to F c.
+  Proof.
+    intros [(Hm & _)|(pre & Hf)] (Hf' & o & Hm'); [congruence|].
+    rewrite Hf' in Hf. apply (f_equal (@length frame)) in Hf. rewrite app_length in Hf. cbn [length] in Hf. lia.
+  Qed.
+
+  Lemma pre_cons h F pre x fr' :
+    pre ++ FWait h :: F = x :: fr' ->
+    (pre = [] /\ x = FWait h /\ fr' = F) \/ exists pre', fr' = pre' ++ FWait h :: F.
+  Proof.
+    destruct pre as [|y pre']; cbn [app]; intros E; inversion E; subst; [left; auto|right; exists pre'; reflexivity].
+  Qed.
+
+  Ltac brkg :=
+    repeat (cbn [c_frames c_mode c_st];
+            match goal with |- context [match ?x with _ => _ end] => destruct x end);
+    cbn [c_frames c_mode c_st].
+
+  (* one transition: the call stays pending, or value() returns into F with the stored = specified outcome of h *)
+  Lemma pending_step spec h F c :
+    F <> [] -> CI res spec c -> is_unwind (c_mode c) = false -> pending h F c ->
+    pending h F (step P c) \/
+    (c_mode (step P c) = MDeliver (outcome_of h (c_st c)) /\ c_frames (step P c) = F /\
+     spec h = Some (outcome_of h (c_st c))).
+  Proof.
+    intros HF0 HI Hu [(Hm & Hf)|(pre & Hf)]; destruct c as [m fr0 s]; cbn [c_mode c_frames c_st] in *.
+    - subst m fr0. destruct HI as (HF & HS & (out & tk & Hg)). cbn [c_mode c_frames c_st] in *.
+      cbn [step c_mode c_frames c_st]. destruct (computed h s) eqn:Hc.
+      + right. split; [reflexivity|]. split; [reflexivity|]. apply (SI_computed_spec _ _ _ _ HS Hc).
+      + left. rewrite Hg. right. exists []. reflexivity.
+    - destruct m; try discriminate Hu; cbn [step c_mode c_frames c_st].
+      + (* MValue *) left. right. brkg; first [exists pre; exact Hf | eexists (_ :: pre); rewrite Hf; reflexivity].
+      + (* MWaitHead *)
+        destruct fr0 as [|[| |root| |] fr']; try (left; right; exists pre; exact Hf).
+        destruct (computed root s) eqn:Hc; [|left; right; eexists (_ :: pre); cbn [c_frames]; rewrite Hf; reflexivity].
+        destruct (pre_cons _ _ _ _ _ (eq_sym Hf)) as [(_ & E1 & E2)|(pre' & E')].
+        * right. inversion E1; subst root fr'. split; [reflexivity|]. split; [reflexivity|].
+          destruct HI as (_ & HS & _). cbn [c_mode c_frames c_st] in HS. apply (SI_computed_spec _ _ _ _ HS Hc).
+        * left. right. exists pre'. exact E'.
+      + (* MAfterExec *)
+        destruct fr0 as [|[| |root| |] fr']; try (left; right; exists pre; exact Hf).
+        destruct (computed root s) eqn:Hc; [|left; right; exists pre; exact Hf].
+        destruct (pre_cons _ _ _ _ _ (eq_sym Hf)) as [(_ & E1 & E2)|(pre' & E')].
+        * right. inversion E1; subst root fr'. split; [reflexivity|]. split; [reflexivity|].
+          destruct HI as (_ & HS & _). cbn [c_mode c_frames c_st] in HS. apply (SI_computed_spec _ _ _ _ HS Hc).
+        * left. right. exists pre'. exact E'.
+      + (* MExecLoop *)
+        destruct fr0 as [|[| | |init|] fr']; try (left; right; exists pre; exact Hf).
+        destruct (pre_cons _ _ _ _ _ (eq_sym Hf)) as [(_ & E1 & _)|(pre' & E')]; [discriminate E1|].
+        left. right.
+        brkg; first [exists pre'; exact E' | exists pre; exact Hf | eexists (_ :: pre); rewrite Hf; reflexivity].
+      + (* MResume *) left. right. brkg; exists pre; exact Hf.
+      + (* MRun *) left. right. brkg; first [exists pre; exact Hf | eexists (_ :: pre); rewrite Hf; reflexivity].
+      + (* MContRet *)
+        destruct fr0 as [|[| | | |t0 old] fr']; try (left; right; exists pre; exact Hf).
+        destruct (pre_cons _ _ _ _ _ (eq_sym Hf)) as [(_ & E1 & _)|(pre' & E')]; [discriminate E1|].
+        left. right. exists pre'. exact E'.
+      + (* MDeliver *)
+        destruct fr0 as [|[|t0 k0| | |] fr']; try (left; right; exists pre; exact Hf).
+        * exfalso. destruct HI as ((b & Hv) & _). cbn [c_mode c_frames c_st] in Hv. inversion Hv; subst.
+          destruct F as [|x0 F']; [exact (HF0 eq_refl)|].
+          apply (f_equal (@length frame)) in Hf. rewrite app_length in Hf. cbn [length] in Hf. lia.
+        * destruct (pre_cons _ _ _ _ _ (eq_sym Hf)) as [(_ & E1 & _)|(pre' & E')]; [discriminate E1|].
+          left. right. exists pre'. exact E'.
+      + left. right. exists pre. exact Hf.
+      + left. right. exists pre. exact Hf.
+  Qed.
+
+  (* from a pending configuration to the FIRST return into F: what is delivered is the specified outcome of h *)
+  Lemma pending_run h F (HF0 : F <> []) d : forall spec c oh o,
+    CI res spec c -> pending h F c -> no_unwind P d c -> spec h = Some oh ->
+    c_mode (run P d c) = MDeliver o -> c_frames (run P d c) = F ->
+    (forall i, (i < d)%nat -> ~ returns_to F (run P i c)) -> o = oh.
+  Proof.
+    induction d as [|d IH]; intros spec c oh o HI Hp Hn Hoh Hm Hf Hfirst.
+    - exfalso. apply (pending_not_returns h F c Hp). split; [exact Hf|exists o; exact Hm].
+    - rewrite run_S in Hm, Hf. destruct (is_final (c_mode c)) eqn:Hfin.
+      { exfalso. apply (pending_not_returns h F c Hp). split; [exact Hf|exists o; exact Hm]. }
+      assert (Hu : is_unwind (c_mode c) = false) by (apply (Hn O); lia).
+      destruct (s01_step_le spec c Hu HI) as (spec' & HI' & L).
+      destruct (pending_step spec h F c HF0 HI Hu Hp) as [Hp'|(Hm' & Hf' & Hs')].
+      + apply (IH spec' (step P c) oh o HI' Hp'); [|apply L; exact Hoh|exact Hm|exact Hf|].
+        * intros k Hk. specialize (Hn (S k) ltac:(lia)). rewrite run_S, Hfin in Hn. exact Hn.
+        * intros i Hi. specialize (Hfirst (S i) ltac:(lia)). rewrite run_S, Hfin in Hfirst. exact Hfirst.
+      + destruct d as [|d'].
+        * cbn [run] in Hm. rewrite Hm' in Hm. inversion Hm as [E]. rewrite Hs' in Hoh. inversion Hoh. reflexivity.
+        * exfalso. apply (Hfirst 1%nat ltac:(lia)). rewrite run_S, Hfin. cbn [run].
+          split; [exact Hf'|]. eexists. exact Hm'.
+  Qed.
+End MonoS.
+
+Lemma run_add P a : forall b c, run P (a + b) c = run P b (run P a c).
+Proof.
+  induction a as [|a IH]; intros b c; [reflexivity|]. cbn [Nat.add]. rewrite !run_S.
+  destruct (is_final (c_mode c)) eqn:Hf; [rewrite run_final by exact Hf; reflexivity|apply IH].
+Qed.
+
+(* S5, the two-state form: a synchronous call of a fresh task with program q, from the call proper (step n) to
+   its FIRST return into the caller's frames (step m): the caller receives exactly evals q and continues with
+   k (evals q), whose sequential value is the caller's *)
+Theorem sync_call_returns_evals_stree P (HP : pointwise P) p (Ht : stree p) n m t h k q o :
+  let c0 := start (fst (create [] (FTask p) (st0 P))) (snd (create [] (FTask p) (st0 P))) in
+  no_unwind P m c0 -> (n < m)%nat ->
+  c_mode (run P n c0) = MRun t (Sync h k) ->
+  get h (c_st (run P n c0)) = Some (mkFut None (KTask (fresh_task q))) ->
+  c_mode (run P m c0) = MDeliver o -> c_frames (run P m c0) = FValue t k :: c_frames (run P n c0) ->
+  (forall i, (n < i < m)%nat -> ~ returns_to (FValue t k :: c_frames (run P n c0)) (run P i c0)) ->
+  o = evals q /\
+  exists spec, spec t = Some (evals (k (evals q))) /\ c_mode (step P (run P m c0)) = MRun t (k (evals q)).
+Proof.
+  intros c0 Hn Hnm Hmn Hg Hmm Hfm Hfirst.
+  assert (Hn' : no_unwind P n c0) by (intros j Hj; apply Hn; lia).
+  destruct (reach_invS_from P HP _ (st0 P) p n Ht (SI_empty P) Hn') as (spec & HI). fold c0 in HI.
+  assert (Ho : o = evals q).
+  { replace m with (n + S (m - n - 1))%nat in Hmm, Hfm by lia. rewrite run_add in Hmm, Hfm.
+    assert (Hsh : forall j, run P j (step P (run P n c0)) = run P (n + S j) c0).
+    { intros j. rewrite run_add, run_S. destruct (run P n c0) as [m0 fr0 s0]. cbn in Hmn. subst m0. reflexivity. }
+    rewrite run_S in Hmm, Hfm.
+    destruct (run P n c0) as [m0 fr s] eqn:Er. cbn [c_mode c_frames c_st] in *. subst m0. cbn [is_final] in Hmm, Hfm.
+    destruct (CI_at_call P _ _ _ _ _ _ _ HI) as (oh & A & _ & _ & _ & _ & F' & _ & Hstep).
+    specialize (F' q Hg). subst oh.
+    destruct (s01_step_le P HP _ spec (mkC (MRun t (Sync h k)) fr s) eq_refl HI) as (spec' & HI' & L).
+    apply (pending_run P HP (evals p) h (FValue t k :: fr) ltac:(discriminate) (m - n - 1) spec' _ (evals q) o HI');
+      [left; rewrite Hstep; split; reflexivity| |apply L; exact A|exact Hmm|exact Hfm|].
+    - intros j Hj. rewrite Hsh. apply Hn. lia.
+    - intros i Hi. rewrite Hsh. apply Hfirst. lia. }
+  split; [exact Ho|]. subst o.
+  assert (Hn'' : no_unwind P m c0) by exact Hn.
+  destruct (reach_invS_from P HP _ (st0 P) p m Ht (SI_empty P) Hn'') as (specm & HIm). fold c0 in HIm.
+  destruct (run P m c0) as [mm frm sm] eqn:Erm. cbn [c_mode c_frames] in Hmm, Hfm. subst mm frm.
+  destruct (CI_at_return P _ _ _ _ _ _ _ HIm) as (_ & _ & C & D). exists specm. split; [exact C|]. rewrite D. reflexivity.
+Qed.
+
+(* the same from the call expression  fn(args) = Let (FTask q) (fun h => Sync h k)  itself *)
+Theorem sync_call_expr_returns_evals_stree P (HP : pointwise P) p (Ht : stree p) n m t k q o :
+  let c0 := start (fst (create [] (FTask p) (st0 P))) (snd (create [] (FTask p) (st0 P))) in
+  no_unwind P m c0 -> (n + 1 < m)%nat ->
+  c_mode (run P n c0) = MRun t (Let (FTask q) (fun h => Sync h k)) ->
+  c_mode (run P m c0) = MDeliver o -> c_frames (run P m c0) = FValue t k :: c_frames (run P n c0) ->
+  (forall i, (n + 1 < i < m)%nat -> ~ returns_to (FValue t k :: c_frames (run P n c0)) (run P i c0)) ->
+  o = evals q /\
+  exists spec, spec t = Some (evals (k (evals q))) /\ c_mode (step P (run P m c0)) = MRun t (k (evals q)).
+Proof.
+  intros c0 Hn Hnm Hmn Hmm Hfm Hfirst.
+  assert (E1 : run P (n + 1) c0 = step P (run P n c0)).
+  { rewrite run_add, run_S. destruct (run P n c0) as [m0 fr0 s0]. cbn in Hmn. subst m0. reflexivity. }
+  destruct (run P n c0) as [m0 fr s] eqn:Er. cbn [c_mode c_frames] in Hmn, Hfm, Hfirst. subst m0.
+  cbn [step c_mode c_frames c_st] in E1.
+  assert (Hg : get (fst (create t (FTask q) s)) (snd (create t (FTask q) s)) =
+               Some (mkFut None (KTask (fresh_task q)))).
+  { unfold create, alloc. cbn. apply get_put_same. }
+  destruct (create t (FTask q) s) as [h s1]. cbn [fst snd] in Hg.
+  apply (sync_call_returns_evals_stree P HP p Ht (n + 1) m t h k q o); fold c0; rewrite ?E1; cbn [c_mode c_frames c_st]; auto.
+Qed.
+
+(* non-vacuity of sync_call_returns_evals_stree on the demo: the call of callee [4] by caller [1] is entered at
+   step 10 and first returns at step 30 with Ok 7 = evals callee *)
+Example c02s_demo_call_returns :
+  let P := mkP [] 1000 false [] in
+  let c0 := start (fst (create [] (FTask c02s_demo) (st0 P))) (snd (create [] (FTask c02s_demo) (st0 P))) in
+  let k := ret_or_raise (fun v => VTuple [v; VInt 1]) in
+  no_unwind P 30 c0 /\
+  c_mode (run P 10 c0) = MRun [1] (Sync [4] k) /\
+  get [4] (c_st (run P 10 c0)) = Some (mkFut None (KTask (fresh_task c02s_callee))) /\
+  c_mode (run P 30 c0) = MDeliver (Ok (VInt 7)) /\
+  c_frames (run P 30 c0) = FValue [1] k :: c_frames (run P 10 c0) /\
+  (forall i, (10 < i < 30)%nat -> ~ returns_to (FValue [1] k :: c_frames (run P 10 c0)) (run P i c0)) /\
+  evals c02s_callee = Ok (VInt 7).
+Proof.
+  cbn zeta. split; [apply no_unwind_b_sound; vm_compute; reflexivity|].
+  split; [vm_compute; reflexivity|]. split; [vm_compute; reflexivity|]. split; [vm_compute; reflexivity|].
+  split; [vm_compute; reflexivity|]. split; [|reflexivity].
+  intros i Hi (_ & o' & Hm').
+  set (P := mkP [] 1000 false []) in *.
+  set (c0 := start (fst (create [] (FTask c02s_demo) (st0 P))) (snd (create [] (FTask c02s_demo) (st0 P)))) in *.
+  assert (Hb : forallb (fun j => match c_mode (run P j c0) with MDeliver _ => false | _ => true end) (seq 11 19) = true)
+    by (vm_compute; reflexivity).
+  rewrite forallb_forall in Hb. specialize (Hb i). rewrite in_seq in Hb. specialize (Hb ltac:(lia)).
+  rewrite Hm' in Hb. discriminate Hb.
 Qed.
